@@ -327,6 +327,13 @@ class Gen:
                 a, ea, ra = self.flt_expr(depth + 1, True, True)
             op = r.choice(["+", "-", "*"])
             self.count("mixed" + op)
+            if not ra:
+                # the float operand of a mixed operation is a variable, never a constant: gcc 12 compiles
+                # `0.0 - (double)k` as `-(double)k` (prints -0.0 for k = 0; clang and Lua print 0.0) - a C
+                # compiler matter outside this property
+                v = self.pick_var("flt", pure_only=True) or self.pick_var("flt", pure_only=pure or eb)
+                if v:
+                    a, ra = v, True
             a, rt = self.anchor("flt", a, ra, rb, pure or eb)
             # (operands keep their left-to-right order: the call, if any, stays first)
             return "(%s %s %s)" % (a, op, b), ea or eb, rt
@@ -393,10 +400,16 @@ class Gen:
         a, rt = self.anchor("bool", a, ra, rb, pure or eb)
         return "(%s %s %s)" % (a, op, b), ea or eb, rt
 
-    def str_expr(self, depth, pure, nocall):
+    def str_expr(self, depth, pure, nocall, novar=False):
+        """Resource bound: a string expression mentions at most ONE string variable (the other operands are
+        literals or tostring of an integer), so every string value is `some variable + a constant`: lengths
+        grow linearly in the number of executed statements, never by doubling (`s = s .. s` in a loop or in
+        a chain of declarations would need 2^n bytes)."""
         r = self.rng
         k = r.random()
         if depth >= 2 or k < 0.35:
+            if novar:
+                return r.choice(STR_LITS), False, False
             return self.leaf("str", pure)
         if k < 0.6:
             a, ea, ra = self.int_expr(depth + 1, True, True)
@@ -404,11 +417,16 @@ class Gen:
                 a = self.pick_var("int", pure_only=True) or a
             self.count("tostring")
             return "tostring(%s)" % a, False, True
-        a, _, ra = self.str_expr(depth + 1, True, True)
-        b, _, rb = self.str_expr(depth + 1, True, True)
+        a, _, ra = self.str_expr(depth + 1, True, True, novar)
+        b, _, rb = self.str_expr(depth + 1, True, True, True)         # no second variable
+        if r.random() < 0.5:
+            a, b, ra, rb = b, a, rb, ra
         self.count("concat")
-        a, rt = self.anchor("str", a, ra, rb, True)
-        return "(%s .. %s)" % (a, b), False, rt
+        if not (ra or rb) and not novar:
+            v = self.pick_var("str", pure_only=True)
+            if v:
+                a, ra = v, True
+        return "(%s .. %s)" % (a, b), False, ra or rb
 
     # ---- statements ----
     def declare(self, t, shared=False, init=None):
@@ -555,7 +573,9 @@ class Gen:
             self.ind += 1
             self.emit("%s = %s + 1" % (c, c))
             self.ind -= 1
+            self.loop_depth += 1
             self.block(r.randint(1, 2))
+            self.loop_depth -= 1
             self.emit("end")
             self.count("while")
         else:
@@ -565,8 +585,10 @@ class Gen:
             self.ind -= 1
             self.scopes.append([])
             self.ind += 1
+            self.loop_depth += 1
             for _ in range(r.randint(1, 2)):
                 self.stmt()
+            self.loop_depth -= 1
             # the until condition sees the body's locals
             cond, _ = self.expr("bool", 1, pure=True, nocall=True)
             self.ind -= 1
@@ -611,9 +633,9 @@ class Gen:
             self.stmt_assign()
         elif r < 0.7 and depth < 5:
             self.stmt_if()
-        elif r < 0.8 and depth < 4:
+        elif r < 0.8 and depth < 4 and self.loop_depth < 2:
             self.stmt_for()
-        elif r < 0.86 and depth < 4:
+        elif r < 0.86 and depth < 4 and self.loop_depth < 2:
             self.stmt_while()
         elif r < 0.92:
             self.stmt_call()
